@@ -42,7 +42,7 @@ Fixpoint vlookup (k : str) (m : list (str * value)) : option value :=
   end.
 
 (* deepMerge with overwrite: structs field by field; maps key by key (struct-valued entries merged, others
-   replaced when the source entry is non-empty); slices, scalars and opaque values replaced wholesale when the
+   replaced by the source entry - also by an empty one: mergo's map case does not ask isEmptyValue); slices, scalars and opaque values replaced wholesale when the
    source is non-empty; pointers merged through the pointee *)
 Fixpoint merge (fuel : nat) (dst src : value) : value :=
   match fuel with
@@ -56,7 +56,7 @@ Fixpoint merge (fuel : nat) (dst src : value) : value :=
                              match vlookup k acc with
                              | Some d => match d, s with
                                          | VStruct _, VStruct _ | VPtr _, VPtr _ | VMap _, VMap _ => assoc_set k (merge n d s) acc
-                                         | _, _ => if is_empty_value s then acc else assoc_set k s acc
+                                         | _, _ => assoc_set k s acc          (* SetMapIndex: even an empty value *)
                                          end
                              | None => assoc_set k s acc
                              end) ms md)
